@@ -220,6 +220,9 @@ func genCounter(rt *rapid.T, res int64, slow bool) ([]smpl, string) {
 	maxInc := rapid.SampledFrom([]int64{1, 10, 1000, 1 << 30}).Draw(rt, "maxInc")
 	xs := make([]smpl, n)
 	cur := rapid.Int64Range(0, 1000).Draw(rt, "v0")
+	// Value class: integer-valued counters are computed exactly at every level; fractional ones
+	// (e.g. *_seconds_total with two or three decimals) are compared with a relative tolerance.
+	div := rapid.SampledFrom([]float64{1, 1, 100, 1000, 7}).Draw(rt, "valueDivisor")
 	for i := range xs {
 		xs[i].t = ts[i]
 		if v, ok := genNaN(rt, nanRate); ok {
@@ -240,9 +243,9 @@ func genCounter(rt *rapid.T, res int64, slow bool) ([]smpl, string) {
 				cur += rapid.Int64Range(0, maxInc).Draw(rt, "inc")
 			}
 		}
-		xs[i].v = float64(cur)
+		xs[i].v = float64(cur) / div
 	}
-	return xs, fmt.Sprintf("%s/reset1in%d", tmode, resetRate)
+	return xs, fmt.Sprintf("%s/reset1in%d/div%v", tmode, resetRate, div)
 }
 
 func nonNaN(xs []smpl) []smpl {
@@ -373,6 +376,13 @@ func checkCounterPoints(points, nn []smpl, adj []float64) string {
 	if len(points) == 0 {
 		return "raw counter has samples but the reader emitted nothing"
 	}
+	exact := true // integer-valued raw counters: every sum is exact, compare bit for bit
+	for _, s := range nn {
+		if s.v != math.Trunc(s.v) {
+			exact = false
+			break
+		}
+	}
 	j := -1 // last raw index with t <= T
 	for i, p := range points {
 		if i > 0 && p.t <= points[i-1].t {
@@ -384,7 +394,7 @@ func checkCounterPoints(points, nn []smpl, adj []float64) string {
 		if j < 0 {
 			return fmt.Sprintf("point emitted at %d, before the first raw sample %d", p.t, nn[0].t)
 		}
-		if p.v != adj[j] {
+		if !counterValueEqual(p.v, adj[j], exact) {
 			return fmt.Sprintf("point #%d (%d, %v): reset-adjusted raw counter at last raw sample <= T (index %d, t=%d, raw=%v) is %v", i, p.t, p.v, j, nn[j].t, nn[j].v, adj[j])
 		}
 	}
@@ -418,4 +428,15 @@ func resetNearBoundary(nn []smpl, maxTimes []int64) (at, near bool) {
 		}
 	}
 	return at, near
+}
+
+// counterValueEqual compares an emitted counter value with the reference. Fractional counters are
+// summed in a different order by the code under test and by the reference, so they may differ by
+// rounding; a fabricated or lost reset changes the value by a whole counter value, far beyond that.
+func counterValueEqual(got, want float64, exact bool) bool {
+	if exact {
+		return got == want
+	}
+	d := math.Abs(got - want)
+	return d <= 1e-9*math.Max(1, math.Abs(want))
 }
